@@ -10,21 +10,23 @@ open VaxisModel.Model.ParserPools
 
 /-! ### heap -/
 
-theorem cells_write_ne (h : Heap) (a b i v : Nat) (hab : a ≠ b) : cells (write h a i v) b = cells h b := by
+theorem cells_write_ne {α : Type} (h : List (List α)) (a b i : Nat) (v : α) (hab : a ≠ b) :
+    cells (write h a i v) b = cells h b := by
   simp only [cells, write, List.getElem?_set_ne hab]
 
-theorem cells_write_eq (h : Heap) (a i v : Nat) (ha : a < h.length) :
+theorem cells_write_eq {α : Type} (h : List (List α)) (a i : Nat) (v : α) (ha : a < h.length) :
     cells (write h a i v) a = (cells h a).set i v := by
   simp only [cells, write, List.getElem?_set_self ha, Option.getD_some]
 
-theorem cells_alloc_lt (h : Heap) (c : List Nat) (b : Nat) (hb : b < h.length) :
+theorem cells_alloc_lt {α : Type} (h : List (List α)) (c : List α) (b : Nat) (hb : b < h.length) :
     cells (h ++ [c]) b = cells h b := by
   simp only [cells, List.getElem?_append_left hb]
 
-theorem cells_alloc_eq (h : Heap) (c : List Nat) : cells (h ++ [c]) h.length = c := by
+theorem cells_alloc_eq {α : Type} (h : List (List α)) (c : List α) : cells (h ++ [c]) h.length = c := by
   simp [cells]
 
-theorem length_write (h : Heap) (a i v : Nat) : (write h a i v).length = h.length := by
+theorem length_write {α : Type} (h : List (List α)) (a i : Nat) (v : α) :
+    (write h a i v).length = h.length := by
   simp [write]
 
 /-! ### lists -/
@@ -411,7 +413,7 @@ theorem lenOk_write (h : Heap) (a i v : Nat) (sl : Slice) (hne : a ≠ sl.arr) (
     lenOk (write h a i v) sl := by
   simpa only [lenOk, cells_write_ne _ _ _ _ _ hne] using hok
 
-theorem length_grow (old : List Nat) (len r newcap : Nat) (h1 : len ≤ old.length) (h2 : len + 1 ≤ newcap) :
+theorem length_grow {α : Type} [Inhabited α] (old : List α) (len : Nat) (r : α) (newcap : Nat) (h1 : len ≤ old.length) (h2 : len + 1 ≤ newcap) :
     (grow old len r newcap).length = newcap := by
   simp only [grow, List.length_append, List.length_take, List.length_cons, List.length_nil,
     List.length_replicate]
